@@ -169,3 +169,21 @@ func writeIfChanged(path string, content string) error {
 	}
 	return os.WriteFile(path, []byte(content), 0o644)
 }
+
+// genBody mirrors Base/Bytes.v gen_body: byte i = (7*i + salt) mod 251.
+func genBody(salt int, n int) []byte {
+	b := make([]byte, n)
+	for i := range b {
+		b[i] = byte((7*i + salt) % 251)
+	}
+	return b
+}
+
+// csum mirrors Base/Bytes.v csum.
+func csum(b []byte) uint64 {
+	h := uint64(0)
+	for _, x := range b {
+		h = (h*131 + uint64(x) + 1) & (1<<48 - 1)
+	}
+	return h
+}
